@@ -552,3 +552,21 @@ func StateHash(state map[string]string) string {
 	h := sha256.Sum256([]byte(strings.Join(lines, ";")))
 	return hex.EncodeToString(h[:10])
 }
+
+// ReadOnly adapts a ReadBucket to the ReadWriteBucket the wrapper expects; writes fail.
+func ReadOnly(rb storage.ReadBucket) storage.ReadWriteBucket { return readOnly{rb} }
+
+type readOnly struct{ storage.ReadBucket }
+
+func (readOnly) Put(context.Context, string, ...storage.PutOption) (storage.WriteObjectCloser, error) {
+	return nil, errReadOnly
+}
+func (readOnly) Delete(context.Context, string) error    { return errReadOnly }
+func (readOnly) DeleteAll(context.Context, string) error { return errReadOnly }
+func (readOnly) SetExternalAndLocalPathsSupported() bool { return false }
+
+var errReadOnly = &readOnlyError{}
+
+type readOnlyError struct{}
+
+func (*readOnlyError) Error() string { return "verif: read-only bucket" }
